@@ -14,6 +14,8 @@ def classify(events, i, why):
     cls = why.get("cls")
     if cls == "sideeffect":
         return "caller-data-modified", "Execute changed the caller's script bytes or the transaction's serialisation"
+    if cls in ("stack", "verdict") and (why.get("op") in (172, 173, 174, 175) or str(beg.get("src", "")).startswith(("p2pk", "multisig"))):
+        return None, None            # what a signature opcode pushes is C06's business, not aliasing
     if cls == "stack":
         # which opcode ran, and was a *different* item than the ones it operates on changed?
         return "stack:%s" % c05.opname(why["op"]), "after %s the stacks differ from the specification (an item other than the result changed: aliasing)" % c05.opname(why["op"])
@@ -22,13 +24,17 @@ def classify(events, i, why):
     return None, None
 
 
+CASES = None
+
+
 def handle(ctx, events, rejects):
     for i, why in rejects:
         key, what = classify(events, i, why)
         if key is None:
             continue
         b, beg, end = V.trace_of(events, i)
-        ctx.candidate(key, what, dict(case=V.mkcase(beg["id"], beg["unlock"], beg["lock"], beg["flags"], beg.get("src", "replay")),
+        ctx.candidate(key, what, dict(case=CASES[beg["case"]] if CASES and beg.get("case") is not None and beg["case"] < len(CASES) else
+                                      V.mkcase(beg["id"], beg["unlock"], beg["lock"], beg["flags"], beg.get("src", "replay")),
                                       summary=V.describe(beg, end, why, i - b)))
 
 
@@ -52,6 +58,13 @@ def run(ctx):
         cases.append(V.mkcase("alias%d" % k, o["unlock"], o["lock"], fl, "tlc-alias"))
     ctx.cov["tlc_generated_cases_replayed"] = len(cases)
     cases += V.random_cases(ctx, ctx.pick(1500, 30000), tag="rnd8")
+    # signature opcodes work on a copy of the transaction with the script code in place of the spent script
+    # (code separators make the two differ): the caller's transaction must only ever record the spent output
+    spath = __import__("os").path.join(ctx.tmp, "c08-sig-cases.ndjson")
+    ctx.run_vh(["sigs", "-out", spath, "-n", ctx.pick(300, 4000)])
+    cases += vf.read_ndjson(spath)
+    global CASES
+    CASES = cases
     events = V.run_cases(ctx, cases, three=False)
     rejects, st = V.validate(ctx, events)
     ctx.cov.update(st)
@@ -65,6 +78,8 @@ def run(ctx):
 
 
 def replay(ctx, case):
-    events = V.run_cases(ctx, [case["case"]["case"]], three=False)
+    global CASES
+    CASES = [case["case"]["case"]]
+    events = V.run_cases(ctx, CASES, three=False)
     rejects, st = V.validate(ctx, events, shards=1)
     handle(ctx, events, rejects)
